@@ -77,6 +77,7 @@ func newWorld(r *ev.Run, spec ParamSpec) *world {
 		r.Broken("%s: genesis node does not match the configured genesis header", spec.Name)
 	}
 	w.checkChainCtx()
+	w.checkExportedAtTip()
 	return w
 }
 
@@ -100,6 +101,28 @@ func (w *world) checkChainCtx() {
 			w.r.Violation(fmt.Sprintf("ChainCtx/%s/%s", w.spec.Name, x.name),
 				fmt.Sprintf("%s: BlockChain.%s() = %d, protocol value %d", w.spec.Name, x.name, x.got, x.want),
 				map[string]interface{}{"kind": "chainctx", "spec": w.spec})
+		}
+	}
+}
+
+// checkExportedAtTip: the exported CalcNextRequiredDifficulty works on the best
+// chain tip, which is the genesis block on these header-only chains.
+func (w *world) checkExportedAtTip() {
+	s := w.rp.TargetSpacing
+	for _, dt := range []int64{1, s, 2 * s, 2*s + 1} {
+		nt := w.gen.x.Time + dt
+		want := refpow.GetNextWorkRequired(w.gen.x, nt, w.rp)
+		if want.Wrapped {
+			continue
+		}
+		var got uint32
+		var err error
+		pn := safe(func() { got, err = w.ch.BC.CalcNextRequiredDifficulty(time.Unix(nt, 0)) })
+		w.r.Eval(1)
+		if pn != nil || err != nil || got != want.Bits {
+			w.r.Violation(fmt.Sprintf("CalcNextRequiredDifficulty/%s/genesis+%d", w.spec.Name, dt),
+				fmt.Sprintf("%s: BlockChain.CalcNextRequiredDifficulty(genesis time + %d) = %#08x (err %v, panic %v), GetNextWorkRequired = %#08x", w.spec.Name, dt, got, err, pn, want.Bits),
+				histCase{Kind: "hist", Spec: w.spec, NewDt: dt})
 		}
 	}
 }
